@@ -20,7 +20,7 @@ import (
 // (same code, deterministic compression). A disagreement is a fidelity failure
 // of the simulator: exit 2 with a diagnostic, never a VIOLATION.
 func fidelityPass(tier string, seed uint64, cov map[string]any) (int, []string) {
-	bin := filepath.Join(sim.VerifDir(), "bin", "gxz-real")
+	bin := filepath.Join(sim.BinDir(), "gxz-real")
 	if _, err := os.Stat(bin); err != nil {
 		cov["stub_fidelity"] = "not run: bin/gxz-real missing"
 		return 0, []string{"note: real-binary fidelity pass skipped (bin/gxz-real missing)"}
